@@ -459,8 +459,22 @@ theorem azimuthal_in_range (phi : ℝ) (na : ℕ) (hna : 1 ≤ na) (h0 : 0 ≤ p
     nlinarith
 
 /-- `AnnularDetector._calculate_new_array` hands its own `offset` to `integrate_radial` (generated keyword argument; fix
-4901abf9 — before it the detector silently dropped the offset), so a shifted annular detector is the shifted annular mask. -/
+4901abf9 — before it the detector silently dropped the offset).  This is only a tripwire on the source text: the site
+maps the whole offset expression to a parameter, so the statement is `rfl`; that the shifted detector equals the shifted
+annular mask is observed by the oracle. -/
 theorem annular_detector_passes_offset (o : Rat × Rat) : annularDetectOffset o = o := rfl
+
+/-- **A shifted detector stays inside the cropped pattern**: the pattern is cropped to `outer + max|offset| + max
+sampling` (generated), so for every axis with pixel size `0 < s ≤ maxs` the shifted annulus — radius `< outer/s` pixels,
+moved by `round(|o|/s) ≤ |o|/s + ½` pixels — lies strictly inside the half-width of the crop and the rolled label table
+cannot wrap around (before fix the crop ended at `outer` and shifted segments wrapped). -/
+theorem offset_crop_contains_shifted_bins (outer o maxoff s maxs : Rat) (hs : 0 < s) (hsm : s ≤ maxs) (ho : o ≤ maxoff) :
+    outer / s + (o / s + 1 / 2) < offsetCropAngle outer (offsetCropMargin maxoff maxs) / s := by
+  unfold offsetCropAngle offsetCropMargin
+  have h1 : o / s ≤ maxoff / s := div_le_div_of_nonneg_right ho hs.le
+  have h2 : (1 : Rat) ≤ maxs / s := (one_le_div hs).2 hsm
+  have e : (outer + (maxoff + maxs)) / s = outer / s + maxoff / s + maxs / s := by ring
+  rw [e]; linarith
 
 /-! ### the flexible detector -/
 
